@@ -37,6 +37,7 @@ type replayFile struct {
 	Pkg       string            `json:"pkg"`
 	Property  string            `json:"property"`
 	Decisions []Decision        `json:"decisions,omitempty"`
+	Retries   int               `json:"retries,omitempty"`
 }
 
 type replayOutcome struct {
@@ -280,7 +281,7 @@ func (w *World) knownWhat(prop, id string) string {
 
 func writeReplay(path, prop string, r *HarnessResult, v *Violation) {
 	rf := replayFile{Harness: strings.Split(r.Entry, "#")[0], Assertion: v.Assertion, Msg: v.Msg, Inputs: v.Inputs, Choices: v.Choices,
-		Params: r.Spec.Params, Float: r.Spec.Float, Pkg: r.Spec.Pkg, Property: prop, Decisions: v.Decisions}
+		Params: r.Spec.Params, Float: r.Spec.Float, Pkg: r.Spec.Pkg, Property: prop, Decisions: v.Decisions, Retries: r.Spec.ReplayRetries}
 	b, _ := json.MarshalIndent(rf, "", " ")
 	os.WriteFile(path, b, 0o644)
 }
@@ -335,18 +336,42 @@ func NativeReplay(root, rel string, paths []string, timeout time.Duration) (map[
 			fmt.Printf("VERIF-NOENTRY %s\n", verifRT.f.Harness)
 			continue
 		}
-		func() {
-			defer func() {
-				if r := recover(); r != nil {
-					if s, ok := r.(verifStop); ok {
-						fmt.Printf("VERIF-STOP %s\n", s.why)
-						return
+		retries := 0
+		if verifRT.f.Assertion != "" {
+			retries = verifRT.f.Retries
+		}
+		for salt := 0; salt <= retries; salt++ {
+			verifSalt = salt
+			hit := false
+			func() {
+				defer func() {
+					if r := recover(); r != nil {
+						if s, ok := r.(verifStop); ok {
+							if salt == retries {
+								fmt.Printf("VERIF-STOP %s\n", s.why)
+							}
+							return
+						}
+						hit = true
+						fmt.Printf("VERIF-PANIC %v\n", r)
 					}
-					fmt.Printf("VERIF-PANIC %v\n", r)
-				}
+				}()
+				f()
 			}()
-			f()
-		}()
+			for _, id := range verifRT.failed {
+				if id == verifRT.f.Assertion {
+					hit = true
+				}
+			}
+			if hit {
+				fmt.Printf("VERIF-SALT %d\n", salt)
+				break
+			}
+			if salt < retries {
+				verifRT.failed = nil
+			}
+		}
+		verifSalt = 0
 		for id := range verifRT.reached {
 			fmt.Printf("VERIF-REACHED %s\n", id)
 		}
